@@ -121,6 +121,8 @@ structure NW where
 
 structure NSite where
   idx : Nat
+  /-- fingerprint (FNV-1a mod 1000000007) of the printed source of the two closures -/
+  sig : Nat
   lit : Bool
   doW : List NW
   undoW : List NW
